@@ -58,11 +58,15 @@ def decorate_answer(answer, request):
         answer.session_id_avp.data = request.session_id_avp.data
         answer.refresh()
 
-    if (is_3xxx_failure(answer) or
-        is_4xxx_failure(answer) or
-        is_5xxx_failure(answer)):
+    if answer.has_avp("result_code_avp"):
+        #: The E-bit follows the Result-Code family, whether or not the route
+        #: function has already set it on its own.
+        is_failure = bool(is_3xxx_failure(answer) or
+                          is_4xxx_failure(answer) or
+                          is_5xxx_failure(answer))
 
-        answer.header.set_error_bit(True)
+        if is_failure != answer.header.is_error():
+            answer.header.set_error_bit(is_failure)
 
     if answer.has_avp("experimental_result_avp"):
         if answer.has_avp("result_code_avp"):
